@@ -675,9 +675,9 @@ func run(c *mon.Ctx) {
 	// ---- random mutation
 	for _, f := range formats {
 		f := f
-		n := c.N(5000, 400000)
+		n := c.N(5000, 1000000)
 		if f.name == "packet" {
-			n = c.N(4000, 300000)
+			n = c.N(4000, 800000)
 		}
 		c.Stream("mutate-"+f.name, n, func(i int, r *gen.Rand) {
 			b := f.seed(r)
@@ -701,7 +701,7 @@ func run(c *mon.Ctx) {
 		})
 	}
 	// ---- systematic: every truncation point and every byte set to each special value / +-1
-	nSys := c.N(3, 200)
+	nSys := c.N(3, 400)
 	for _, f := range formats {
 		f := f
 		c.Stream("systematic-"+f.name, nSys, func(i int, r *gen.Rand) {
@@ -738,7 +738,7 @@ func run(c *mon.Ctx) {
 		driveDescriptor(byte(tag), nil)
 	})
 	// ---- streams
-	c.Stream("streams", c.N(1500, 100000), func(i int, r *gen.Rand) {
+	c.Stream("streams", c.N(1500, 400000), func(i int, r *gen.Rand) {
 		s := seedStream(r)
 		b := s.data
 		curMut = "none"
